@@ -5,7 +5,8 @@ from common import src_line
 
 LEVEL = 'model_checking'
 SPECS = [
-    ('c18::c18_exact_w3', 'pre x doc comment with a body of <= 3 characters (1- to 4-byte classes) x two separators: the scan returns exactly the body, byte for byte', 'quick', ['javadoc']),
+    ('c18::c18_exact_w2', 'pre x doc comment with a body of <= 2 characters (1- to 4-byte classes) x two separators: the scan returns exactly the body, byte for byte', 'quick', ['javadoc']),
+    ('c18::c18_exact_w3', 'body of <= 3 characters', 'thorough', ['javadoc']),
     ('c18::c18_no_doc', 'no documentation when something else / only an ordinary comment precedes', 'quick', ['javadoc']),
     ('c18::c18_exact_w5', 'body of <= 5 characters', 'thorough', ['javadoc']),
 ]
@@ -13,7 +14,7 @@ SPECS = [
 
 def check(run):
     run.functions += ['javadoc::find_content_string (%s)' % src_line('src/javadoc.rs', 'fn find_content_string')]
-    run.bounds += ['comment body <= 3 (quick) / 5 (thorough) characters over 8 classes (space, LF, CR, TAB, ASCII letter, 2-, 3-, 4-byte code point); 4 prefixes; 2 separators from 6 forms']
+    run.bounds += ['comment body <= 2 (quick) / 3, 5 (thorough) characters over 8 classes (space, LF, CR, TAB, ASCII letter, 2-, 3-, 4-byte code point); 4 prefixes; 2 separators from 6 forms']
     run.outside += ['parse_javadoc (three Regex::new per call): decoration removal, line joining, @tag splitting are not decided',
                     'which grammar production passes which start offset: decided in C04 (obligation doc-scan-start, engine A)']
     run.extra['explanation'] = 'Kani/CBMC over the real backwards state machine with the comment text symbolic; native sweep of 247 texts (accented, CJK, emoji) confirms.'
